@@ -80,6 +80,7 @@ func dmWorkerHandler() {
 func dmEarly() {
 	daemon.Register(dmWorker, dmWorkerHandler)
 	daemon.Register(dmName, dmHandler)
+	daemon.Register("", dmHandler) // registered under the empty name as well
 	if daemon.Run() {
 		os.Exit(0)
 	}
@@ -234,10 +235,13 @@ type dmLaunchResult struct {
 }
 
 // dmLaunch calls the real daemon.Launch with a watchdog.
+// dmLaunchName is the handler name the scenarios launch: normally dmName; the empty name is a name like any other.
+var dmLaunchName = dmName
+
 func dmLaunch(dir string) dmLaunchResult {
 	ch := make(chan dmLaunchResult, 1)
 	go func() {
-		pid, err := daemon.Launch(dmName)
+		pid, err := daemon.Launch(dmLaunchName)
 		var m []byte
 		if err == nil {
 			m, _ = os.ReadFile(filepath.Join(dir, strconv.Itoa(pid)+".marker"))
@@ -590,6 +594,11 @@ func runDaemon(cfg Cfg) {
 			restore := dmSetenv(map[string]string{dmEnvDetach: "1"})
 			d.scenario("daemon-calls-setsid", 1, rng.Intn(20), i%8 == 2, false)
 			restore()
+		}
+		if i%6 == 4 {
+			dmLaunchName = ""
+			d.scenario("handler-registered-under-the-empty-name", 1, rng.Intn(10), false, false)
+			dmLaunchName = dmName
 		}
 		if i%3 == 0 {
 			d.scenario("parallel", cfg.N(6, 16), rng.Intn(20), false, true)
